@@ -26,12 +26,21 @@ def chkSlice (b : Bytes) (lo hi : Nat) : Out Bytes :=
   | .panic => .err
   | r => r
 
-def readParams (data : Bytes) : Nat → Nat → Out (List Bytes)
+/-- `paramsNum.ToInt`: `binary.BigEndian.Uint16(num)` under the conversions the source applies (regenerated
+`pgParamsNumToInt`; PostgreSQL reads this Int16 as an UNSIGNED count) -/
+def paramsNumToInt (num : Bytes) : Int := goConvs Generated.Wire.pgParamsNumToInt (beVal num)
+
+/-- number of iterations of `for i := 0; i < numParams.ToInt(); i++` (none for a negative bound) -/
+def paramsCount (num : Bytes) : Nat := (paramsNumToInt num).toNat
+
+/-- the parameter-OID loop of `NewParsePacket` on the bytes from `endIndex` on: `k` times
+`len(data) < endIndex+4 → ErrPacketTruncated`, `params = append(params, data[endIndex:endIndex+4])`, `endIndex += 4` -/
+def readParams : Nat → Bytes → Out (List Bytes)
   | 0, _ => .ok []
-  | k+1, pos => do
-    let p ← chkSlice data pos (pos + 4)
-    let rest ← readParams data k (pos + 4)
-    pure (p :: rest)
+  | k+1, a :: b :: c :: d :: rest => do
+    let ps ← readParams k rest
+    pure ([a, b, c, d] :: ps)
+  | _+1, _ => .err
 
 /-- `NewParsePacket` -/
 def newParsePacket (data : Bytes) : Out ParsePacket :=
@@ -48,7 +57,7 @@ def newParsePacket (data : Bytes) : Out ParsePacket :=
         let query ← goSlice data start endIdx
         let numParams ← chkSlice data endIdx (endIdx + 2)
         let e2 := endIdx + 2
-        let params ← if e2 < data.length then readParams data (beVal numParams) e2 else .ok []
+        let params ← if e2 < data.length then readParams (paramsCount numParams) (data.drop e2) else .ok []
         pure ⟨name, query, numParams, params⟩
 
 /-- `ParsePacket.Marshal` -/
@@ -78,11 +87,26 @@ def replaceParseOids (p : Packet) (sel : Nat → Bool) (byteaOid : Nat) : Out Pa
     pure { p with body := pp'.marshal, lenBuf := packetLength pp'.marshal.length }
   else pure p
 
+/-- Parse part of `handleClientPacket` (pg_decryptor.go): `handleQueryPacket` replaces the query text when the query
+observers changed it (`q = some text`), then `GetParseData` re-parses the packet and `replaceOIDsInParsePackets`
+re-types the selected parameters -/
+def handleParse (p : Packet) (q : Option Bytes) (sel : Nat → Bool) (byteaOid : Nat) : Out Packet :=
+  (match q with
+    | some text => replaceParseQuery p text
+    | none => .ok p) >>= fun p1 => replaceParseOids p1 sel byteaOid
+
 /-! ### specification codec -/
 
 /-- body of a Parse message: statement name, query (both without zero bytes), parameter type OIDs -/
 def encodeParse (name query : Bytes) (oids : List Nat) : Bytes :=
   name ++ [0] ++ query ++ [0] ++ beBytes 2 oids.length ++ (oids.map (beBytes 4)).flatten
+
+/-- exactly `n` big-endian 32-bit OIDs and nothing else -/
+def decodeOids : Nat → Bytes → Option (List Nat)
+  | 0, [] => some []
+  | 0, _ :: _ => none
+  | n+1, a :: b :: c :: d :: r => (decodeOids n r).map (beVal [a, b, c, d] :: ·)
+  | _+1, _ => none
 
 def decodeParse (b : Bytes) : Option (Bytes × Bytes × List Nat) :=
   match indexZero b with
@@ -95,8 +119,10 @@ def decodeParse (b : Bytes) : Option (Bytes × Bytes × List Nat) :=
       let tail := rest.drop (i1 + 1)
       if tail.length < 2 then none else
       let n := beVal (tail.take 2)
-      let ps := tail.drop 2
-      if ps.length ≠ 4 * n then none
-      else some (b.take i0, rest.take i1, (List.range n).map fun k => beVal ((ps.drop (4 * k)).take 4))
+      (decodeOids n (tail.drop 2)).map fun oids => (b.take i0, rest.take i1, oids)
+
+/-- specification side of `replaceOIDsInParsePackets`: the parameter types after the rewrite -/
+def setParseOids (oids : List Nat) (sel : Nat → Bool) (byteaOid : Nat) : List Nat :=
+  oids.mapIdx fun i o => if sel i then byteaOid else o
 
 end AcraModel.Wire.Pg
